@@ -1,6 +1,7 @@
 import MpdProofs.Lemmas.LoopInv
 import Mpd.Client
 import MpdProofs.Lemmas.Progress
+import MpdProofs.C03
 /-!
 # C08 — when the connection ends, every request resolves and the failure is reported
 
@@ -99,5 +100,99 @@ theorem C08_complete_reply_kept (s : St) (σ : Builder.BState) (σ' : Builder.BS
     (h : Builder.feed σ s.buf = (σ', rest, .done r)) :
     (pollRecv s σ).2 = .ready (.resp r) := by
   unfold pollRecv; rw [h]
+
+/-! ### the failure is surfaced: an end of stream inside a response reaches the caller in flight, or
+the event stream, as `UnexpectedEof`; an end of stream on a response boundary is a plain close -/
+
+/-- one poll at the end of the stream with nothing left to read: unexpected EOF exactly when the
+builder is inside a response or bytes are left over (the two disjuncts of C10), else a clean end -/
+theorem pollRecv_at_eof (t : St) (σ σ1 : Builder.BState) (rest : Bytes)
+    (heof : t.eof = true) (hr : t.rerr = none) (hav : t.avail = [])
+    (hf : Builder.feed σ t.buf = (σ1, rest, .pending)) :
+    (pollRecv t σ).2 = .ready (Conn.eofItem σ1 rest) ∧ (pollRecv t σ).1.obs = t.obs ∧
+    (pollRecv t σ).1.queue = t.queue := by
+  unfold pollRecv
+  rw [hf]
+  simp [hr, hav, heof]
+
+theorem C08_unclean_eof_reaches_caller (s : St) (rf : Bool) (req : Req) (σ σ1 : Builder.BState) (rest : Bytes)
+    (hpc : s.pc = .waiting req σ) (heof : s.eof = true) (hr : s.rerr = none) (hav : s.avail = [])
+    (hf : Builder.feed σ s.buf = (σ1, rest, .pending))
+    (hin : Builder.inProgress σ1 = true ∨ rest ≠ []) :
+    ∃ s', step s rf = some s' ∧ Obs.resolved req.id (.protocol .unexpectedEof) ∈ s'.obs := by
+  have hitem : Conn.eofItem σ1 rest = .unexpectedEof := by
+    unfold Conn.eofItem
+    rcases hin with h | h
+    · simp [h]
+    · have : rest.isEmpty = false := by cases rest <;> simp_all
+      simp [this]
+  obtain ⟨h1, h2, _⟩ := pollRecv_at_eof { s with fresh := false } σ σ1 rest heof hr hav hf
+  have hpoll : recvPollable s = true := by simp [recvPollable, heof]
+  rcases hp : pollRecv { s with fresh := false } σ with ⟨s1, rp⟩
+  rw [hp] at h1 h2
+  simp only at h1 h2
+  subst h1
+  refine ⟨afterReply (emit s1 (.resolved req.id (.protocol (itemErr .unexpectedEof)))) (s1.now + TIMEOUT_MS), ?_, ?_⟩
+  · obtain ⟨t, ht⟩ : ∃ t : St, t = { s with fresh := false } := ⟨_, rfl⟩
+    rw [← ht] at hp
+    unfold step
+    rw [← ht, hpc]
+    simp only [hpoll, Bool.not_true, Bool.false_eq_true, if_false]
+    rw [hp, hitem]
+  · obtain ⟨e, he⟩ := ext_afterReply (emit s1 (.resolved req.id (.protocol (itemErr .unexpectedEof)))) (s1.now + TIMEOUT_MS)
+    rw [he]
+    simp [emit, itemErr]
+
+/-- while idling (no request pending): the event stream gets the closing event with the error -/
+theorem C08_unclean_eof_reaches_events (s : St) (rf : Bool) (σ σ1 : Builder.BState) (rest : Bytes)
+    (hpc : s.pc = .idling σ) (hq : s.queue = []) (hs : s.senders ≠ 0)
+    (heof : s.eof = true) (hr : s.rerr = none) (hav : s.avail = [])
+    (hf : Builder.feed σ s.buf = (σ1, rest, .pending))
+    (hin : Builder.inProgress σ1 = true ∨ rest ≠ []) :
+    ∃ s', step s rf = some s' ∧ Obs.closing (some .unexpectedEof) ∈ s'.obs ∧ s'.pc = .exited := by
+  have hitem : Conn.eofItem σ1 rest = .unexpectedEof := by
+    unfold Conn.eofItem
+    rcases hin with h | h
+    · simp [h]
+    · have : rest.isEmpty = false := by cases rest <;> simp_all
+      simp [this]
+  obtain ⟨h1, h2, _⟩ := pollRecv_at_eof { s with fresh := false } σ σ1 rest heof hr hav hf
+  have hpoll : recvPollable s = true := by simp [recvPollable, heof]
+  rcases hp : pollRecv { s with fresh := false } σ with ⟨s1, rp⟩
+  rw [hp] at h1 h2
+  simp only at h1 h2
+  subst h1
+  refine ⟨exitLoop (emit s1 (.closing (some (itemErr .unexpectedEof)))), ?_, ?_, (exitLoop_spec _).1⟩
+  · obtain ⟨t, ht⟩ : ∃ t : St, t = { s with fresh := false } := ⟨_, rfl⟩
+    rw [← ht] at hp
+    unfold step
+    rw [← ht, hpc]
+    simp only [hq, List.isEmpty_nil, Bool.not_true, hs, decide_false, Bool.or_self, Bool.false_and,
+      Bool.false_eq_true, if_false, hpoll, if_true]
+    rw [hp, hitem]
+  · rw [(exitLoop_spec _).2.2]
+    simp [emit, itemErr]
+
+/-- ... and an end of stream on a response boundary while idling is a plain close: no closing event -/
+theorem C08_clean_eof_no_error (s : St) (rf : Bool) (hpc : s.pc = .idling .initial) (hq : s.queue = [])
+    (hs : s.senders ≠ 0) (heof : s.eof = true) (hr : s.rerr = none) (hav : s.avail = []) (hb : s.buf = []) :
+    ∃ s', step s rf = some s' ∧ s'.pc = .exited ∧ closings s'.obs = closings s.obs := by
+  have hf : Builder.feed .initial s.buf = (.initial, [], .pending) := by rw [hb]; exact C03.feed_nil .initial
+  obtain ⟨h1, h2, _⟩ := pollRecv_at_eof { s with fresh := false } .initial .initial [] heof hr hav hf
+  have hpoll : recvPollable s = true := by simp [recvPollable, heof]
+  rcases hp : pollRecv { s with fresh := false } .initial with ⟨s1, rp⟩
+  rw [hp] at h1 h2
+  simp only at h1 h2
+  subst h1
+  refine ⟨exitLoop s1, ?_, (exitLoop_spec _).1, ?_⟩
+  · obtain ⟨t, ht⟩ : ∃ t : St, t = { s with fresh := false } := ⟨_, rfl⟩
+    rw [← ht] at hp
+    unfold step
+    rw [← ht, hpc]
+    simp only [hq, List.isEmpty_nil, Bool.not_true, hs, decide_false, Bool.or_self, Bool.false_and,
+      Bool.false_eq_true, if_false, hpoll, if_true]
+    rw [hp]
+    simp [Conn.eofItem, Builder.inProgress]
+  · rw [closings_exitLoop, h2]
 
 end Mpd.C08
